@@ -18,6 +18,8 @@ THEOREMS = [
     "Ts.Snapshot.storedAll",
     "Ts.Snapshot.restoreLeafG_ok",
     "Ts.World.C01_world_roundtrip",
+    "Ts.World.C01_world_roundtrip_any_target",
+    "Ts.Snapshot.restoreLeafInto_ok",
     "Ts.World.C07_world_replicated_everywhere",
     "Ts.World.C06_world_written_once",
     "Ts.World.C06_world_kept_nodup",
